@@ -921,7 +921,7 @@ pub fn c02_rescan(input: &str, cfg: &Cfg) -> Vec<String> {
                         && cb.is_char_boundary(b)
                         && cb[..a] == ca[..a]
                         && cb[b..] == ca[b..]
-                        && cb[a..b] == ca[a..b].to_ascii_uppercase())
+                        && cb[a..b].bytes().zip(ca[a..b].bytes()).all(|(y, x)| y == x || y == x.to_ascii_uppercase()))
             }
             RawTokenType::Comment(k) if k.is_singleline() => {
                 // trailing blanks trimmed; one space inserted after `//` or `///` when the text starts right there
